@@ -160,6 +160,10 @@ inductive Inv (S : Sem T PJ X V A) (c : Config) :
   | synced (u v) : u.1 = ⟨true, false, true⟩ → v.1 = ⟨true, false, true⟩ →
       u.2.pj = v.2.pj → u.2.pos = v.2.pos → u.2.vel = v.2.vel →
       v.2.pos = S.toIpos v.2.pj → v.2.vel = S.toIvel v.2.pj → Inv S c u v
+  /-- both runs synchronised, the user (a callback) has edited the particles and set the
+      recalculate flag: same internal coordinates, same (edited) particles -/
+  | edited (u v) : u.1 = ⟨true, true, true⟩ → v.1.isSync = true → v.1.allocated = true →
+      u.2.pj = v.2.pj → u.2.pos = v.2.pos → u.2.vel = v.2.vel → Inv S c u v
 
 theorem exec_cons (S : Sem T PJ X V A) (p : Prim) (ps : List Prim) (s : St PJ X V A) :
     exec S (p :: ps) s = exec S ps (denote S p s) := rfl
@@ -222,6 +226,21 @@ theorem inv_step {S : Sem T PJ X V A} (L : Laws S) (c : Config)
     · exact hj.2.1
     · exact hj.2.2
 
+  | edited h1 h2 h3 h4 h5 h6 =>
+    have hv : v.1 = ⟨true, v.1.recalc, true⟩ := by
+      have := flags_eta v.1; rw [h2, h3] at this; exact this
+    rw [h1, hv, stepOps_unsafe_fresh, stepOps_safe]
+    have hw : (exec S [.init, .fromInertial] v.2).pj = (exec S [.init, .fromInertial] u.2).pj := by
+      simp only [exec, denote]; rw [h4, h5, h6]
+    have hj := step_join S c (exec S ([.init, .fromInertial] ++ driftOps c true) u.2)
+      (exec S ([.init, .fromInertial] ++ driftOps c true) v.2)
+      (by rw [exec_append, exec_append]; exact (closed_pj_congr S (closed_driftOps c true) hw).symm)
+    refine Inv.unsync _ _ rfl rfl ?_ ?_ ?_ <;>
+      simp only [List.append_assoc, exec_append] at hj ⊢
+    · exact hj.1
+    · exact hj.2.1
+    · exact hj.2.2
+
 theorem inv_sync (S : Sem T PJ X V A) (c : Config) {u v : Flags × St PJ X V A} (h : Inv S c u v) :
     Inv S c (apply S (c.mode false false) .synchronize u) v := by
   rw [apply_sync]
@@ -241,6 +260,10 @@ theorem inv_sync (S : Sem T PJ X V A) (c : Config) {u v : Flags × St PJ X V A} 
     have hs : (initF u.1).isSync = true := by rw [h1]; rfl
     rw [syncOps_sync _ _ hs, h1]
     exact Inv.synced _ _ rfl h2 h3 h4 h5 h6 h7
+  | edited h1 h2 h3 h4 h5 h6 =>
+    have hs : (initF u.1).isSync = true := by rw [h1]; rfl
+    rw [syncOps_sync _ _ hs, h1]
+    exact Inv.edited _ _ rfl h2 h3 h4 h5 h6
 
 theorem inv_run {S : Sem T PJ X V A} (L : Laws S) (c : Config)
     (hC : InverseOn S (corrBlk c)) (hC2 : InverseOn S (c2Blk c))
@@ -283,5 +306,6 @@ theorem inv_final (S : Sem T PJ X V A) (c : Config) {u v : Flags × St PJ X V A}
       · rw [syncOps_sync _ _ hs]; exact hs
     rw [h1] at this; cases this
   | synced h1 h2 h3 h4 h5 h6 h7 => exact ⟨h3, h4, h5⟩
+  | edited h1 h2 h3 h4 h5 h6 => exact ⟨h4, h5, h6⟩
 
 end RV.Sync
